@@ -223,21 +223,10 @@ def unit_dependencies(tier):
     """The clauses shared with C01 (distance from the start = Cartesian length of the unwrapped displacement) and C14 (tracer diffusivity formula)
     are re-run here from the same source, so that a change breaking them is reported under C06 as well."""
     from verif.props import c01, c14
-
-    class Multi(Unit):
-        pass
-    us = [c01.unit_lengths(tier), c01.unit_distances(tier)]
+    from verif.props.common import merge_units
     f = c14.unit_formulas(tier)
     f.results = [r for r in f.results if 'tracer_diffusivity' in r.get('label', '') and 'center_of_mass' not in r.get('label', '')]
-    us.append(f)
-    u = Multi('C06.dependencies')
-    for x in us:
-        for r in x.results:
-            r = dict(r)
-            r['unit'] = 'C06.dependencies'
-            u.results.append(r)
-        u.functions_used.update(x.functions_used)
-    return u
+    return merge_units('C06.dependencies', [c01.unit_lengths(tier), c01.unit_distances(tier), f])
 
 
 # ---------------------------------------------------------------------------------------------------------------
